@@ -112,15 +112,9 @@ def known_classes(lang, cfg, datas):
         if dashed:
             add("dashed-type-name", dashed)
         if lang == "python":
-            ga = [a["id"]["r"] for a in d["aliases"] if a["generic_types"]]
-            if ga:
-                add("python-generic-alias", ga)
             kw = [k for e in d["enums"] if e["kind"] == "alg" for k in (e["tag"], e["content"]) if k in PY_KEYWORDS]
             if kw:
                 add("python-tag-key-keyword", kw)
-            bs = [c for c in all_comments(d) if re.search(r"\\[xuUN]", c)]
-            if bs:
-                add("python-docstring-escape", bs)
             alg = [v["id"]["r"] for e in d["enums"] if e["kind"] == "alg" for v in e["variants"]]
             dig = [r for r, sn in zip(alg, snake(alg)) if sn == "" or sn[0].isdigit()]
             if dig:
@@ -184,12 +178,8 @@ def explains(kid, detail, lang, rej, text):
     near = rej.tok[1] if rej.tok else ""
     if kid == "dashed-type-name":
         return any(n in line for n in detail) and (near == "-" or lang == "python")
-    if kid == "python-generic-alias":
-        return rej.what.startswith("assignment target is not a name") and any(line.startswith(n + "[") for n in detail)
     if kid == "python-tag-key-keyword":
         return any(re.match(r"\s+%s: " % re.escape(k), line) for k in detail)
-    if kid == "python-docstring-escape":
-        return "unicode error" in rej.what or "escape" in rej.what
     if kid == "python-tag-member-not-identifier":
         return any(re.match(r"\s+\S* = %s\Z" % re.escape(json.dumps(r)), line) for r in detail) or rej.what.startswith("CPython: invalid decimal literal")
     if kid == "kotlin-import-empty-package":
@@ -216,9 +206,7 @@ WITNESSES = [
     ("dashed-type-name", "scala", {"package": "com.example"}, DASHED),
     ("dashed-type-name", "go", {"package": "proto"}, DASHED),
     ("dashed-type-name", "python", {}, DASHED),
-    ("python-generic-alias", "python", {}, "#[typeshare]\npub type G<T> = Vec<T>;\n"),
     ("python-tag-key-keyword", "python", {}, "#[typeshare]\n#[serde(tag = \"class\", content = \"content\")]\npub enum E { A(u8) }\n"),
-    ("python-docstring-escape", "python", {}, "#[typeshare]\n/// see C:\\Users\\x\npub struct S { pub a: u8 }\n"),
     ("typescript-generic-unit-enum", "typescript", {}, "#[typeshare]\npub enum E<T> { A, #[serde(skip)] P(std::marker::PhantomData<T>) }\n"),
     ("scala-default-underscore", "scala", {"package": "com.example"}, "#[typeshare]\npub struct S { #[serde(default)] pub a: u8 }\n"),
     ("scala-package-without-dot", "scala", {"package": "pkg"}, "#[typeshare]\npub struct S { pub a: u8 }\n"),
@@ -227,6 +215,14 @@ WITNESSES = [
     ("swift-case-name-not-identifier", "swift", {}, "#[typeshare]\npub enum E { _1, B }\n"),
     ("python-tag-member-not-identifier", "python", {}, "#[typeshare]\n#[serde(tag = \"t\", content = \"c\")]\npub enum E { _1(u8), B }\n"),
     ("kotlin-import-empty-package", "kotlin", {"package": ""}, None),
+]
+# witnesses of repaired findings (python-generic-alias: 614135b, python-docstring-escape: 37d8a26): the oracle must accept
+# the implementation's output now
+REPAIRED = [
+    ("python-generic-alias", "python", {}, "#[typeshare]\npub type G<T> = Vec<T>;\n"),
+    ("python-generic-alias", "python", {}, "#[typeshare]\n/// doc\npub type M<K, V> = HashMap<String, Option<Vec<V>>>;\n#[typeshare]\npub struct S<K> { pub a: K }\n"),
+    ("python-docstring-escape", "python", {}, "#[typeshare]\n/// see C:\\Users\\x\npub struct S { pub a: u8 }\n"),
+    ("python-docstring-escape", "python", {}, "#[typeshare]\n/// \\N \\x4 \\u12 \\\"\"\" \\\npub struct S {\n    /// trailing \\\n    pub a: u8 }\n"),
 ]
 KOTLIN_IMPORT_FILES = [
     {"src": "#[typeshare]\npub struct A { pub a: u8 }\n", "crate": "alpha", "file_name": "alpha.out", "path": "alpha/src/lib.rs"},
@@ -256,9 +252,8 @@ OVERRIDES = {
     "go": ["any", "[]Custom", "map[string]*Custom", "interface{}"],
     "python": [],           # python.rs ignores type overrides
 }
-DOC_EXTRA = [" say \"hi\"", " it's", " a /* b", " x // y", " (paren", " brace}", " [", " >", " <T", " `tick", " 100%", " $x ${y}",
+DOC_EXTRA = [" see C:\\Users", " \\N", " \\x4z \\u12", " say \"hi\"", " it's", " a /* b", " x // y", " (paren", " brace}", " [", " >", " <T", " `tick", " 100%", " $x ${y}",
              " back\\slash", " two \"\" quotes", " semi;colon", " trailing backslash\\", " @tag", " #", " '"]
-DOC_RARE = [" see C:\\Users"]          # python-docstring-escape: breaks the whole Python file, so it is drawn rarely
 KEY_TAGS = [("case", "content"), ("type", "default"), ("class", "value"), ("kind", "in"), ("from", "import"), ("t", "is")]
 VARIANT_EXTRA = ["Default", "Case", "In", "Is", "Do", "Type", "Any", "_1", "_2nd", "Class1"]
 # `inout` (Swift label keyword); names that are not keywords themselves but whose snake_case form is a Python keyword
@@ -480,7 +475,7 @@ def run(check):
                   "newline, `*/`, `\"\"\"` — excluded), keyword field/variant/tag names; header, package and prefix settings; "
                   "1 in 8 cases multi-file; x 6 languages.  non-trivial = the implementation produced at least one output file "
                   "that went through the oracle")
-    genmod.DOC_WORDS = (list(genmod.DOC_WORDS) + DOC_EXTRA) * 6 + DOC_RARE
+    genmod.DOC_WORDS = list(genmod.DOC_WORDS) + DOC_EXTRA
     genmod.VARIANT_WORDS = list(genmod.VARIANT_WORDS) + VARIANT_EXTRA
     genmod.FIELD_WORDS = list(genmod.FIELD_WORDS) + FIELD_EXTRA
     # type names that are (capitalised) Swift keywords: the escape must apply to the whole prefixed name
@@ -533,6 +528,7 @@ def run(check):
                 check.sample({"lang": lang, "config": c["cfg"], "source": c["texts"][0][:600],
                               "output": list(ra["ok"].values())[0][:600]})
     replay_witnesses(check)
+    replay_repaired(check)
     check.assumptions += [
         "partial strength: the Lean theorems prove lexical well-formedness (comments, string literals and brackets closed: `wellBracketed`), the "
         "keyword-escaping promises of Swift and Python and the leading-digit rule on the model; conformance to the declaration grammar is CHECKED "
@@ -541,6 +537,29 @@ def run(check):
         "(duplicate member names, undefined or shadowed names, Go's unused import are outside)",
         "doc comments containing a line break, `*/` (TypeScript) or `\"\"\"` (Python) are C15's known classes and excluded by hypothesis here",
     ]
+
+
+def replay_repaired(check):
+    """the witnesses of repaired findings are ordinary inputs now: the oracle must accept what is generated for them"""
+    reqs = [{"op": "generate", "lang": l, "config": cfg, "files": [{"src": s_, "crate": "", "file_name": "o", "path": "w.rs"}]}
+            for _, l, cfg, s_ in REPAIRED]
+    for (kid, lang, cfg, src), a in zip(REPAIRED, runner(reqs)):
+        check.saw(("repaired", kid, lang, src), nontrivial=True)
+        if "ok" not in a:
+            check.violation("the witness of the repaired finding %s is not generated: %s" % (kid, str(a)[:200]),
+                            case={"lang": lang, "config": cfg, "source": src}, impl=a, failing_input=True)
+            continue
+        for text in a["ok"].values():
+            rej, _ = syn.check(lang, text)
+            if rej is not None:
+                check.violation("%s output is not well-formed: %s (witness of the repaired finding %s)" % (lang, rej.describe(), kid),
+                                case={"lang": lang, "config": cfg, "source": src}, impl={"text": text}, failing_input=True)
+            elif lang == "python":
+                imp = python_import(text)
+                check.count("repaired-python-import-%s" % (imp[0] if imp else "ok"))
+                if imp:
+                    check.violation("python module generated for the witness of the repaired finding %s does not import: %s" % (kid, imp),
+                                    case={"lang": lang, "config": cfg, "source": src}, impl={"text": text}, failing_input=True)
 
 
 def replay_witnesses(check):
